@@ -30,6 +30,9 @@ type c06Case struct {
 	Allowed  bool     `json:"allowed"`
 	SubsID   bool     `json:"subsid"`
 	Pkts     []c06Pkt `json:"pkts"`
+	// Backlog (v3.1 / v3.1.1, whose CONNECT resumes): the session exists already and QoS 1 messages are waiting for
+	// it - they may follow the CONNACK, nothing may precede it
+	Backlog bool `json:"backlog,omitempty"`
 }
 
 type c06Step struct {
@@ -58,6 +61,7 @@ func (p *c06Prop) Parallel() int { return 8 }
 
 func (p *c06Prop) Gen(r *Rng, i int, tier string) interface{} {
 	c := &c06Case{Ver: []int{3, 4, 5}[i%3], Allowed: !r.Chance(8), SubsID: !r.Chance(25)}
+	c.Backlog = c.Ver != 5 && c.Allowed && r.Chance(20)
 	subscribed := map[int]bool{}
 	q2used := map[int]bool{}
 	mk := func(t int) c06Pkt {
@@ -346,6 +350,34 @@ func (p *c06Prop) Run(ci interface{}) interface{} {
 		obs.Err = "bystander: no suback"
 		return obs
 	}
+	if c.Backlog && c.Allowed && ver != mqttp.ProtocolV50 {
+		oc := b.Dial()
+		if _, err := oc.Connect(ConnectOpts{ID: "c06", Ver: ver, Clean: false}); err != nil {
+			obs.Err = "backlog: " + err.Error()
+			return obs
+		}
+		oa := oc.Auto(false)
+		_ = oa.SendL(mkSubscribe(ver, 1, []string{"c06backlog"}, []byte{1}))
+		if !oa.WaitFor(5*time.Second, func() bool { return len(oa.Others) >= 1 }) {
+			obs.Err = "backlog: no suback"
+			return obs
+		}
+		before := b.Met.Disconnected()
+		oc.Close()
+		deadline := time.Now().Add(5 * time.Second)
+		for b.Met.Disconnected() == before && time.Now().Before(deadline) {
+			time.Sleep(time.Millisecond)
+		}
+		for k := 0; k < 2; k++ {
+			_ = bc.Send(mkPublish(bver, "c06backlog", []byte{byte(k)}, 1, false, uint16(700+k)))
+		}
+		_ = bc.Send(mkPublish(bver, "by", []byte{7}, 0, false, 0))
+		if !by.WaitFor(5*time.Second, func() bool { return len(by.Pubs) >= 1 }) { // routed: the two before it are stored for c06
+			obs.Err = "backlog: routing barrier"
+			return obs
+		}
+	}
+	byBase := by.NPubs()
 	cl := b.Dial()
 	cl.Ver = ver
 	connected := false
@@ -382,6 +414,13 @@ func (p *c06Prop) Run(ci interface{}) interface{} {
 				break
 			}
 			t := int(rp.Type())
+			if pb, ok := rp.(*mqttp.Publish); ok && pb.Topic() == "c06backlog" {
+				// what was waiting for the session: after the CONNACK it is not a response to anything
+				if !connected {
+					obs.Err = fmt.Sprintf("step %d: a PUBLISH was sent before the CONNACK", k)
+				}
+				continue
+			}
 			switch a := rp.(type) {
 			case *mqttp.ConnAck:
 				st.Resp = append(st.Resp, [3]int{t, 0, int(a.ReturnCode())})
@@ -461,7 +500,7 @@ func (p *c06Prop) Run(ci interface{}) interface{} {
 	hc := b.Dial()
 	if _, err := hc.Connect(ConnectOpts{ID: "helper", Ver: bver, Clean: true}); err == nil {
 		_ = hc.Send(mkPublish(bver, "by", []byte{1}, 0, false, 0))
-		obs.Bystander = by.WaitFor(5*time.Second, func() bool { return len(by.Pubs) >= 1 })
+		obs.Bystander = by.WaitFor(5*time.Second, func() bool { return len(by.Pubs) > byBase })
 	}
 	return obs
 }
